@@ -608,10 +608,14 @@ pub fn run(ctx: Ctx, mode: Mode) -> i32 {
         .reduce(Stats::default, |a, b| a.merge(b));
     // F-wide: the same skeletons (with their precedence declarations) moved to token indices
     // 62-120 and rule indices up to 65, as they are (no further precedence variants)
-    let wide = family_wide();
+    let mut wide = family_wide();
+    let nwide = wide.len();
+    // F-pager: tables whose construction re-processes into new states or garbage-collects
+    wide.extend(vcore::gram::family_pager().into_iter().map(|m| m.g));
     let stats = stats.merge(wide.par_iter().map(|g| check_spec(&ctx, mode, g)).reduce(Stats::default, |a, b| a.merge(b)));
     let mut sizes = sizes;
-    sizes.push(("F-wide (tokens from index 62-120, rules from index 1-65)".to_string(), wide.len()));
+    sizes.push(("F-wide (tokens from index 62-120, rules from index 1-65)".to_string(), nwide));
+    sizes.push(("F-pager (stored family, see genfam.rs)".to_string(), wide.len() - nwide));
     let _ = (PIdx(0u32), SIdx(0u32));
     // vacuity guard: every resolution kind must have been exercised
     for k in [
